@@ -135,6 +135,24 @@ class It:
         self.kind, self.inner, self.clo, self.extra = kind, inner, clo, extra
 
 
+class Abs:
+    """abstract byte array (e.g. a 32-byte secret / hash value): an element of an uninterpreted
+    domain, with uninterpreted byte / store / hash functions over it.  Used where the code only
+    copies, compares, flips single bits of and hashes such arrays."""
+    __slots__ = ('t', 'n')
+
+    def __init__(self, t, n=32):
+        self.t, self.n = t, n
+
+    def __repr__(self):
+        return 'Abs(%s)' % (self.t,)
+
+
+ABS_BYTE = z3.Function('abs.byte', z3.IntSort(), z3.IntSort(), z3.IntSort())
+ABS_STORE = z3.Function('abs.store', z3.IntSort(), z3.IntSort(), z3.IntSort(), z3.IntSort())
+ABS_HASH = z3.Function('abs.sha256', z3.IntSort(), z3.IntSort())
+
+
 class Opaque:
     __slots__ = ('why',)
 
@@ -489,6 +507,9 @@ class Engine:
         if isinstance(a, En) and isinstance(b, En) and op in ('Eq', 'Ne'):
             e = zint(a.d) == zint(b.d)
             return B(simp(e if op == 'Eq' else z3.Not(e)))
+        if (isinstance(a, Abs) or isinstance(b, Abs)) and op in ('Eq', 'Ne'):
+            e = self.abs_eq(a, b)
+            return B(e if op == 'Eq' else Not(e))
         if isinstance(a, Tup) and isinstance(b, Tup) and op in ('Eq', 'Ne'):
             e = And(*[zbool(self.binop('Eq', x, y, guard, where).t) for x, y in zip(a.fs, b.fs)])
             return B(e if op == 'Eq' else Not(e))
@@ -613,6 +634,14 @@ class Engine:
             return En('Ordering', If(lt, 0, If(eq, 1, 2)), {})
         raise Unsupported('binop ' + op)
 
+    def abs_eq(self, a, b):
+        if isinstance(a, Abs) and isinstance(b, Abs):
+            return simp(zint(a.t) == zint(b.t))
+        ab, tp = (a, b) if isinstance(a, Abs) else (b, a)
+        if isinstance(tp, Tup):
+            return And(*[zbool(zint(ABS_BYTE(ab.t, k)) == zint(x.t)) for k, x in enumerate(tp.fs)])
+        raise Unsupported('comparison of abstract array with %r' % (tp,))
+
     def cast_int(self, v, ty):
         if isinstance(v, B):
             return I(If(v.t, 1, 0), ty)
@@ -734,6 +763,8 @@ class Engine:
                 else:
                     vs[k] = [self.merge(c, p, q) for p, q in zip(x, y)]
             return En(a.name if a.name else b.name, If(c, a.d, b.d), vs, a.base or b.base)
+        if isinstance(a, Abs) and isinstance(b, Abs):
+            return Abs(If(c, a.t, b.t), a.n)
         if isinstance(a, Ref) and isinstance(b, Ref):
             if a.cell == b.cell and a.path == b.path:
                 return a
@@ -808,6 +839,10 @@ class Engine:
             if isinstance(v, Seq) and v.prefix and isinstance(v.n, int):
                 return Tup(v.elems[lo:hi])
             raise Unsupported('subslice of %r' % (v,))
+        if k == 'i' and isinstance(v, Abs):
+            bt = ABS_BYTE(v.t, zint(step[1]))
+            self.assume(z3.And(bt >= 0, bt <= 255), ('absbyte', bt.get_id()))
+            return I(bt, 'u8')
         if k == 'i':
             idx = step[1]
             elems = v.fs if isinstance(v, Tup) else (v.elems if isinstance(v, Seq) else None)
@@ -911,6 +946,10 @@ class Engine:
             if not isinstance(upd, Tup) or len(upd.fs) != hi - lo:
                 raise Unsupported('subslice write of wrong shape')
             return Tup(v.fs[:lo] + upd.fs + v.fs[hi:])
+        if st[0] == 'i' and isinstance(v, Abs):
+            if len(path) != 1 or not isinstance(new, I):
+                raise Unsupported('nested write into abstract array')
+            return Abs(ABS_STORE(v.t, zint(st[1]), zint(new.t)), v.n)
         if st[0] == 'i':
             idx = st[1]
             if isinstance(v, Tup):
@@ -1554,6 +1593,12 @@ def _resolve(self, func, argv=None):
             if nm == f or nm.endswith('::' + f) or f.endswith('::' + nm):
                 if '<impl at ' in nm:
                     continue
+                if f.endswith('::' + nm) and nm != f:
+                    # the part of the callee path the dump does not print must be module segments only
+                    # (a capitalised segment is a type: `Type::method`, resolved below)
+                    extra = f[:-len(nm) - 2].split('::')
+                    if any(seg[:1].isupper() for seg in extra):
+                        continue
                 cands.extend(idxs)
         if nargs is not None:
             cands = [i for i in cands if self.ix.get(i).nargs == nargs]
@@ -1581,6 +1626,14 @@ def _resolve(self, func, argv=None):
         p1 = fn.params[0][1] if fn.params else ''
         if re.search(r'\b%s\b' % re.escape(tbase), p1) or re.search(r'\b%s\b' % re.escape(tbase), fn.ret_ty):
             good.append(i)
+    if not good and meth:
+        # associated function without receiver: use the file that declares the type
+        files = [pth for (pth, _) in (self.decls.structs.get(tbase, []) + self.decls.enums.get(tbase, []))]
+        rel = [f_.split('/repo/')[-1] for f_ in files]
+        good = [i for i in meth if any(('<impl at ' + r + ':') in self.ix.offsets[i][0] for r in rel)]
+        if len(good) > 1:
+            # several impl blocks in that file: keep those whose callee name suffix matches exactly
+            good = [i for i in good if M.header_name(self.ix.offsets[i][0]).endswith('::' + base)]
     if len(good) == 1:
         return self.ix.get(good[0])
     if len(good) > 1:
